@@ -231,7 +231,8 @@ def env_jobs(pid, tier, seed):
                 envjob("env-mixed", 0, seed + 2, n(800, 8000), maxbatch=6, rounds=7)]
     if pid == "C14":
         return [envjob("market-direct", 2, seed, n(1500, 15000)),
-                envjob("menv-shuffled", 1, seed + 1, n(1200, 12000), maxbatch=8, rounds=5)]
+                envjob("menv-shuffled", 1, seed + 1, n(1200, 12000), maxbatch=8, rounds=5),
+                envjob("menv-overfull", 1, seed + 2, n(600, 6000), maxbatch=8, rounds=5, smallstep=1)]
     if pid == "C13":
         return [envjob("market-direct-toggles", 2, seed + 21, n(1200, 12000)),
                 envjob("menv-toggles", 1, seed + 22, n(900, 9000), maxbatch=7, rounds=6),
